@@ -283,13 +283,14 @@ func (r *remoteReplicator) Replica(idx int64, msg []byte) {
 		logger.String("replicator", r.String()),
 		logger.Int64("replicaIdx", resp.ReplicaIndex),
 		logger.Int64("ackIdx", resp.AckIndex))
-	// FIXME: need check resp err
-	if resp.AckIndex == resp.ReplicaIndex {
+	if resp.Err == "" && resp.AckIndex == resp.ReplicaIndex {
 		// if ack index = replica, need ack wal
 		r.SetAckIndex(resp.AckIndex)
 		r.statistics.AckSequence.Incr()
 	} else {
-		// TODO: need reset ack sequence?
+		// follower failed to append or expects another index: both sides are out of step,
+		// mark the channel as failure so that next IsReady does the handshake again.
+		r.state.Store(&state{state: models.ReplicatorFailureState, errMsg: "invalid replica ack, resp err: " + resp.Err})
 		r.statistics.InvalidAckSequence.Incr()
 	}
 }
